@@ -1319,6 +1319,18 @@ impl<'a> VisitMut for ForDesugar<'a> {
 
 // ------------------------------------------------------------------ markers
 
+/// `//@proof before @loop-end N`: a marker after the last statement of loop N's body (reached by every iteration
+/// that falls through; `continue` / `break` paths skip it)
+fn push_loopend(b: &mut syn::Block, n: usize) {
+    let id = syn::Index::from(n);
+    if let Some(Stmt::Expr(_, semi)) = b.stmts.last_mut() {
+        if semi.is_none() {
+            *semi = Some(Default::default());
+        }
+    }
+    b.stmts.push(parse_quote! { __fjx_loopend!(#id); });
+}
+
 struct LoopMarker {
     n: usize,
     with_binder: Vec<usize>,
@@ -1331,6 +1343,7 @@ impl VisitMut for LoopMarker {
         match e {
             Expr::ForLoop(f) => {
                 self.n += 1;
+                push_loopend(&mut f.body, n);
                 f.body.stmts.insert(0, parse_quote! { __fjx_loopstart!(#id); });
                 f.body.stmts.insert(0, parse_quote! { __fjx_loop!(#id); });
                 if self.with_binder.contains(&n) {
@@ -1340,11 +1353,13 @@ impl VisitMut for LoopMarker {
             }
             Expr::While(f) => {
                 self.n += 1;
+                push_loopend(&mut f.body, n);
                 f.body.stmts.insert(0, parse_quote! { __fjx_loopstart!(#id); });
                 f.body.stmts.insert(0, parse_quote! { __fjx_loop!(#id); });
             }
             Expr::Loop(f) => {
                 self.n += 1;
+                push_loopend(&mut f.body, n);
                 if !self.desugared.contains(&n) {
                     f.body.stmts.insert(0, parse_quote! { __fjx_loopstart!(#id); });
                 }
@@ -1538,6 +1553,9 @@ struct ExtractSpec {
     contract: Vec<String>,
     loops: BTreeMap<usize, Vec<String>>,
     proofs: Vec<(String, bool, Vec<String>)>,
+    /// indices of `//@proof at-call` blocks: an obligation about each execution of the named call; if the
+    /// function no longer contains the call there is nothing to oblige (other contracts decide what its absence means)
+    optional_proofs: std::collections::HashSet<usize>,
     line: usize,
     spec_only: bool,
     iter_params: Vec<String>,
@@ -2096,7 +2114,7 @@ impl Unit {
             .proofs
             .iter()
             .enumerate()
-            .filter(|(_, (n, _, _))| !n.starts_with("@loop-start"))
+            .filter(|(_, (n, _, _))| !n.starts_with("@loop-start") && !n.starts_with("@loop-end"))
             .map(|(i, (n, a, _))| (nospace(n), *a, i))
             .collect();
         if !needles.is_empty() {
@@ -2104,6 +2122,10 @@ impl Unit {
             pm.visit_block_mut(&mut block);
             for (_, _, i) in needles.iter() {
                 let h = pm.hits[*i];
+                if h == 0 && spec.optional_proofs.contains(i) {
+                    log.push(format!("R-PROOF at-call anchor `{}` absent: the call is not made, no obligation", spec.proofs[*i].0));
+                    continue;
+                }
                 if h != 1 {
                     die(&format!(
                         "lost anchor: proof anchor `{}` in {}::{} matched {} statements",
@@ -2242,7 +2264,24 @@ impl Unit {
                 .join("\n");
             text = text.replace(&marker, &repl);
         }
+        for n in 0..n_loops {
+            let marker = format!("__fjx_loopend!({n});");
+            let repl = spec
+                .proofs
+                .iter()
+                .filter(|(needle, _, _)| needle.trim() == format!("@loop-end {n}"))
+                .map(|(_, _, lines)| lines.join("\n"))
+                .collect::<Vec<_>>()
+                .join("\n");
+            text = text.replace(&marker, &repl);
+        }
         for (needle, _, _) in spec.proofs.iter() {
+            if let Some(k) = needle.trim().strip_prefix("@loop-end ") {
+                let k: usize = k.parse().unwrap_or_else(|_| die("bad @loop-end"));
+                if k >= n_loops {
+                    die(&format!("lost anchor: @loop-end {k}: function has {n_loops} loops"));
+                }
+            }
             if let Some(k) = needle.trim().strip_prefix("@loop-start ") {
                 let k: usize = k.parse().unwrap_or_else(|_| die("bad @loop-start"));
                 if k >= n_loops {
@@ -2251,10 +2290,13 @@ impl Unit {
             }
         }
         for (i, (needle, _, lines)) in spec.proofs.iter().enumerate() {
-            if needle.starts_with("@loop-start") {
+            if needle.starts_with("@loop-start") || needle.starts_with("@loop-end") {
                 continue;
             }
             let marker = format!("__fjx_proof!({i});");
+            if spec.optional_proofs.contains(&i) && !text.contains(&marker) {
+                continue;
+            }
             let pos = text.find(&marker).unwrap_or_else(|| die("internal: proof marker lost"));
             text.replace_range(pos..pos + marker.len(), &lines.join("\n"));
         }
@@ -2818,6 +2860,7 @@ impl Unit {
                                         let after = match pos {
                                             "after" => true,
                                             "before" => false,
+                                            "at-call" => { spec.optional_proofs.insert(spec.proofs.len()); false }
                                             _ => die("bad //@proof position"),
                                         };
                                         spec.proofs.push((needle.trim().to_string(), after, vec![]));
